@@ -39,7 +39,7 @@ DEBTS = {
 EXTRA_N = {"none": [], "usdtN": [("USDT", "700")], "usdtN-big": [("USDT", "7900")]}
 TARGETS = ["1.3", "1.000000001", "0.999999999", "0.97", "0.9500001", "0.949", "0.6", "0.2", "0.03"]
 QUICK_TARGETS = ["1.3", "1.000000001", "0.999999999", "0.97", "0.949", "0.6", "0.03"]
-USER_OPS = ["none", "read-views", "supply-more", "repay-part"]
+USER_OPS = ["none", "read-views", "supply-more", "repay-part", "refused-withdraw"]
 
 
 def dec(fr: Fraction) -> Decimal:
@@ -190,6 +190,15 @@ def judge(part, case, ctx):
             _ = (m.supplies, m.borrows, m.health_factor, m.collateral_value, m.get_market_balance())
         elif uop == "supply-more":
             m.supply(tok["USDC"], Decimal(37), True) if tok["USDC"] not in m._supplies or m._supplies[tok["USDC"]].collateral else None
+        elif uop == "refused-withdraw":
+            # the strategy asks for (nearly) all of its biggest collateral back; with debt outstanding that is refused - and must leave no trace at bar end
+            big = max((t for t, sp in m._supplies.items() if sp.collateral), key=lambda t: F(m.get_supply(t).amount) * F(row[t.name]), default=None)
+            if big is not None:
+                try:
+                    m.withdraw(big, m.get_supply(big).amount * Decimal("0.97"))
+                    part.count("refused_withdraw_was_accepted")
+                except kit.REJECTIONS:
+                    part.count("refused_withdraws")
         elif uop == "repay-part":
             d = next(iter(m._borrows))
             m.repay(d, m.get_borrow(d).amount / 10)
@@ -340,7 +349,7 @@ def all_cases(run):
     colls = list(COLLATERALS)
     debts = list(DEBTS)
     targets = TARGETS if run.thorough else QUICK_TARGETS
-    users = USER_OPS if run.thorough else ["none", "read-views"]
+    users = USER_OPS if run.thorough else ["none", "read-views", "refused-withdraw"]
     extras = list(EXTRA_N) if run.thorough else ["none", "usdtN-big"]
     out = []
     for c, d, e, sh, t, u in itertools.product(colls, debts, extras, ("collateral-down", "debt-up"), targets, users):
